@@ -89,6 +89,7 @@ type Router struct {
 	*router.VerifDP
 	Cfg    Cfg
 	Opener *Opener
+	stock  []StockPkt
 }
 
 func SiblingAddr(k int) string { return fmt.Sprintf("10.0.0.%d:30042", 1+k) }
